@@ -43,7 +43,7 @@ CHECKS = {
          "For every uninitialised constructor, length 0..=4 (6 thorough) and every subset of slots written, the handle is dropped before assume_init (no element destructor may run, the header's runs once) or, with all slots written, assumed initialised (same block, bytes, count; no allocator call, no counter write) and then shared, converted and dropped (every element and the header destroyed exactly once). Deprecated Arc::write/as_mut_slice are called in every sharing state: sole -> writes, shared -> documented panic, nothing modified.",
          "lengths as stated"),
  "C13": ("exploration", "typex", "bounded exhaustive enumeration of generated client programs, each decided by the real compiler against the crate's real signatures",
-         "What model checking can do for a type-level property is enumerate a finite matrix of client programs and let rustc decide each one against the real crate: 278 auto-trait cells (handle kind x payload class per parameter x {Send,Sync}, plus the generic for-all-T form with each bound removed) whose E0277 set must equal the set the property says is rejected, both directions; 49 borrow-escape cells (borrow source x escape route) each of which must be rejected with a lifetime error in its own function, and 49 positive controls that must compile. It cannot quantify over all safe programs; that limit is stated in DESIGN.md and the evidence.",
+         "What model checking can do for a type-level property is enumerate a finite matrix of client programs and let rustc decide each one against the real crate: 278 auto-trait cells (handle kind x payload class per parameter x {Send,Sync}, plus the generic for-all-T form with each bound removed) whose E0277 set must equal the set the property says is rejected, both directions; 49 borrow-escape cells (borrow source x escape route) each of which must be rejected with a lifetime error in its own function, and 49 positive controls that must compile; every unsafe constructor (from_raw, from_ptr, assume_init, ...) must be E0133 when called from safe code; and a nightly build with unstable_dropck_eyepatch must still reject a handle outliving data its payload's destructor reads. It cannot quantify over all safe programs; that limit is stated in DESIGN.md and the evidence.",
          "finite matrix; rustc is the oracle; a hole outside the matrix is not found"),
  "C16": ("exploration", "gridx", "exhaustive enumeration of starting count x clone entry point x {std, no_std}, one child process per cell",
          "Every cell of (10 starting counts around isize::MAX and usize::MAX) x (16 clone entry points over all handle kinds and borrow callbacks) x (std, no_std builds) runs in its own child process: the count word is located through the hook log and pre-set, the clone is wrapped in catch_unwind; above the limit the child must die by SIGABRT with no handle produced and nothing caught, at or below it the clone returns and adds exactly one. An interference grid interleaves a second clone of the same allocation before each atomic step of the clone under test (through the hook table, deterministically): whenever any increment finds the count already past isize::MAX the process must abort.",
